@@ -492,6 +492,39 @@ def _scenarios(ctx, g):
                     out.append(("population-incomplete", "crash-prefix-%d" % cut,
                                 "population after a crash at step %d finished but %s is missing/torn" % (cut, f)))
         ctx.case("scenario:crash-prefix:%d" % cut)
+    # 5b. killed the instant a file has received its final name (inside os.replace's return): whatever carries a schema name
+    # must already be the whole file
+    nrep = 0
+    while True:
+        d = fresh("afterrename")
+        k = sched.spawn("P", d, g["inst"], ("populate",))
+        k.stop_at_replaced = True
+        seen_rep = 0
+        while k.pending:
+            if k.pending.get("op") == "replaced":
+                seen_rep += 1
+                if seen_rep > nrep:
+                    break
+            k.grant(); adv(k)
+        if not k.pending:          # no further rename: done
+            k.reap()
+            break
+        k.kill()
+        nrep += 1
+        for f in FILES.values():
+            a = os.path.join(d, f)
+            if os.path.exists(a) and open(a, "rb").read() != open(os.path.join(g["inst"], f), "rb").read():
+                out.append(("torn-final", "killed-after-rename-%d" % nrep,
+                            "population killed right after rename number %d: %s carries its schema name but holds %d of %d bytes"
+                            % (nrep, f, os.path.getsize(a), os.path.getsize(os.path.join(g["inst"], f)))))
+        l = sched.spawn("L", d, g["inst"], ("load", WANT_VERSION))
+        fl = run_to_end(l)
+        l.reap()
+        if fl.get("result") != "ok" or fl.get("digest") != g["ref"]:
+            out.append(("load-failed", "killed-after-rename-%d" % nrep, "population killed right after rename number %d, later load: %s" % (nrep, fl)))
+        ctx.case("scenario:killed-after-rename:%d" % nrep)
+        if nrep > 20:
+            break
     return out
 
 
